@@ -3,17 +3,43 @@ from harness import histprop, gens
 
 RULE = ("seeded random update histories (make_empty of every kind/dtype/sentinel/configuration, 1-10 "
         "updates in every call form: update_values_pix, nest=False, __setitem__ int/slice/array/list, "
-        "update_values_pos; replace/add/or/and/None; clustered, block-edge and uniform pixel sets, shuffled "
+        "update_values_pos, half-open pixel ranges on both sides of the size threshold; replace/add/or/and/None; clustered, block-edge and uniform pixel sets, shuffled "
         "coverage growth, pre-allocated coverage pixels); after every step all pixels are read through every "
         "read path and compared with the L1 model state and the L0 dense array; a history counts as "
         "non-trivial when an update is followed by a check, distinct by the SHA-256 of its JSON form")
+
+
+def gen(rng):
+    """gens.gen_c01_history plus, in some histories, updates addressed by half-open pixel ranges (both the
+    expanded path and, with the threshold set to 0, the slice path; None-clears included)"""
+    from harness import gens2
+    hist = gens.gen_c01_history(rng)
+    mk = hist[0]
+    cfg = (mk['nc'], mk['ns'])
+    for _ in range(rng.choice([0, 0, 1, 2])):
+        ops = gens.legal_ops(mk)
+        op = rng.choice(ops) if rng.random() < 0.5 else 'replace'
+        st = dict(op='rng', h=0, operation=op, thr=rng.choice([0, 0, None]))
+        # ('add' over overlapping ranges with a custom non-zero sentinel is finding F36 of C08)
+        st['ranges'] = gens2.rand_ranges(rng, cfg, overlapping=not (op == 'add' and mk.get('sentinel') not in (None, 0, 0.0)))
+        if mk['kind'] == 'rec' or (op == 'replace' and rng.random() < 0.4):
+            st['value'] = None
+            st['operation'] = 'replace'
+        else:
+            v = gens.rand_value(rng, mk)
+            if mk['kind'] == 'plain' and mk['dtype'] in gens.INT_DT and op == 'add':
+                v = max(0 if gens.INT_RANGE[mk['dtype']][0] == 0 else -3, min(3, v))
+            st['value'] = v
+        pos = rng.randrange(1, len(hist) + 1)
+        hist[pos:pos] = [st, dict(op='check', h=0)]
+    return hist
 
 
 def run(tier, seed, boost=False, facts=None):
     n = 400 if tier == 'quick' else 6000
     if boost:
         n *= 3
-    return histprop.run_property('C01', lambda rng: gens.gen_c01_history(rng), n, seed, RULE)
+    return histprop.run_property('C01', gen, n, seed, RULE)
 
 
 def replay(payload):
